@@ -242,7 +242,7 @@ def main(tier):
     single = [x for x in defs if not x["accept"] and nbad(x) <= 1]
     multi = [x for x in defs if not x["accept"] and nbad(x) > 1]
     if tier == "quick":
-        chosen = acc[:500] + single[:900] + multi[:400]
+        chosen = acc[:400] + single + multi[:300]
     else:
         chosen = defs
     items = [{"kind": "def", "def": x["def"]} for x in chosen]
@@ -283,7 +283,7 @@ def main(tier):
         "rule": "abstract definitions exported by TLC from CondSchema.tla (constructor x class of name/run/parallelizable/args/"
                 "options/deps/extra), concretised with rotating Python representatives per class; %s; include() classes %s and "
                 "Python failure classes %s; non-trivial = distinct (definition, concrete source)" % (
-                    "quick: 500 accepted + all single-fault + 400 multi-fault definitions" if tier == "quick" else "all 43 440",
+                    "quick: 400 accepted + all single-fault + 300 multi-fault definitions" if tier == "quick" else "all 43 440",
                     sorted(INCLUDES), sorted(PYFAIL)),
     })
     rep.add_sample({k: rows[0][k] for k in ("def", "src", "accepted", "exit", "stderr")})
